@@ -89,7 +89,7 @@ Proof. repeat split; try (intros [[|]|]; reflexivity); reflexivity. Qed.
 Lemma req_from_none k : forall t, incl (req_from k t) (req_from k None).
 Proof.
   destruct req_tables as (A1 & A2 & A3 & A4 & O1 & O2 & O3 & O4 & A5 & O5 & O6).
-  induction k as [R|k IH y|k IH|k IH y|k IH]; intros t; cbn [req_from].
+  induction k as [R|k IH y|k IH|k IH y|k IH|k IH sel]; intros t; cbn [req_from].
   - apply incl_refl.
   - rewrite !A1, A5. apply incl_app; [apply incl_appl, incl_refl | apply incl_appr].
     destruct t as [[|]|]; [rewrite A2 | rewrite A3 | rewrite A5]; try apply incl_refl. apply IH.
@@ -99,6 +99,7 @@ Proof.
     + rewrite O2, O3. apply incl_refl.
     + rewrite O5, O6. apply incl_refl.
   - rewrite !O4. apply IH.
+  - apply incl_app; [apply incl_appl, incl_refl | apply incl_appr, IH].
 Qed.
 
 (* ---------------------------------------------------------------- the section *)
@@ -315,7 +316,16 @@ Section DF.
     - destruct (smap _ (p :: ls) (d_sT s, d_r s)) as [out st]. reflexivity.
   Qed.
 
-  Definition is_leaf (c : cond) : bool := match c with CAnd _ _ | CElseIf _ _ => false | _ => true end.
+  Lemma evalD_sub sel c' k b ywf s :
+    evalD (CSub sel c') k b ywf s =
+    (flat_map (fun p : binding * bool => map (fun b' => (b', snd p)) (bind_sel h dom sel (fst p))) (fst (evalD c' (KSub k sel) b ywf (d_l s))),
+     DN (d_sT s) (d_sF s) (snd (evalD c' (KSub k sel) b ywf (d_l s))) (d_r s)).
+  Proof.
+    cbn [Dedup.evalD]. destruct (evalD c' (KSub k sel) b ywf (d_l s)) as [rows sl]. cbn [fst snd].
+    f_equal; try (apply flat_map_ext; intros p; now rewrite bind_selected_eq).
+  Qed.
+
+  Definition is_leaf (c : cond) : bool := match c with CAnd _ _ | CElseIf _ _ | CSub _ _ => false | _ => true end.
   Lemma evalD_leaf c k b ywf s : is_leaf c = true -> evalD c k b ywf s = (eval c b ywf, s).
   Proof. destruct c; cbn [is_leaf]; try discriminate; reflexivity. Qed.
   Lemma evalDs_leaf c k ywf : is_leaf c = true -> forall bs s, evalDs c k bs ywf s = (flat_map (fun b => eval c b ywf) bs, s).
@@ -401,6 +411,13 @@ Section DF.
         * split; [exact Dp|]. split; [exact Ep|]. intros _ e V A. cbn [Spec.isat]. rewrite (Tp Fp e V A). reflexivity.
         * pose proof (IHy By _ _ _ _ _ Dp Hr) as (Dr & Er & Tr). split; [exact Dr|]. split; [intros e A; apply Ep, Er, A|].
           intros Fr e V A. cbn [Spec.isat]. rewrite (Tr Fr e V A). apply orb_true_r.
+    - (* a nested query: its condition's rows, its selection bound *)
+      cbn [EvalPure_Facts.basic] in B. apply andb_prop in B as [Bs Bc]. rewrite evalD_sub in H. cbn [fst] in H.
+      apply in_flat_map in H as (p & Hp & Hr). apply in_map_iff in Hr as (b2 & <- & H2).
+      pose proof (IH Bc _ _ _ _ _ D Hp) as (Dp & Ep & Tp). cbn [fst snd]. split; [|split].
+      + eapply (bind_sel_in_dom h dom U); eassumption.
+      + intros e A. apply Ep. eapply (bind_sel_ext h dom U); eassumption.
+      + intros Fp e V A. cbn [Spec.isat]. apply (Tp Fp e V). eapply (bind_sel_ext h dom U); eassumption.
   Qed.
 
   Lemma evalDs_ok c : basic c = true -> forall k bs ywf s r, Forall in_dom bs -> In r (fst (evalDs c k bs ywf s)) ->
@@ -439,6 +456,25 @@ Section DF.
         rewrite smap_app. cbn [fst snd]. fold Lb.
         assert (E : (fst (snd Lb), snd (snd Lb)) = snd Lb) by (destruct (snd Lb); reflexivity).
         rewrite E in I1, I2. rewrite I1, I2, I3. repeat split; reflexivity. }
+    intros bs s. apply G.
+  Qed.
+
+  Lemma sub_batch sel c' k ywf : forall bs s,
+    fst (evalDs (CSub sel c') k bs ywf s) =
+      flat_map (fun p : binding * bool => map (fun b' => (b', snd p)) (bind_sel h dom sel (fst p)))
+               (fst (evalDs c' (KSub k sel) bs ywf (d_l s))).
+  Proof.
+    assert (G : forall bs s,
+      fst (evalDs (CSub sel c') k bs ywf s) =
+        flat_map (fun p : binding * bool => map (fun b' => (b', snd p)) (bind_sel h dom sel (fst p)))
+                 (fst (evalDs c' (KSub k sel) bs ywf (d_l s))) /\
+      d_l (snd (evalDs (CSub sel c') k bs ywf s)) = snd (evalDs c' (KSub k sel) bs ywf (d_l s))).
+    { induction bs as [|b bs IH]; intros s.
+      - cbn [evalDs smap fst snd flat_map]. split; reflexivity.
+      - rewrite !evalDs_cons. cbn [fst snd]. rewrite evalD_sub. cbn [fst snd].
+        set (Xb := evalD c' (KSub k sel) b ywf (d_l s)).
+        set (s1 := DN (d_sT s) (d_sF s) (snd Xb) (d_r s)).
+        destruct (IH s1) as (I1 & I2). cbn [d_l s1] in I1, I2. rewrite I1, I2, flat_map_app. split; reflexivity. }
     intros bs s. apply G.
   Qed.
 
@@ -676,6 +712,8 @@ Section DF.
   Proof. destruct req_tables as (_ & _ & _ & _ & _ & O2 & O3 & _). unfold rq. cbn [negb req_from]. now rewrite O2, O3. Qed.
   Lemma rq_elseR k f : rq (KElseR k) f = rq k f.
   Proof. destruct req_tables as (_ & _ & _ & _ & _ & _ & _ & O4 & _). unfold rq. cbn [req_from]. now rewrite O4. Qed.
+  Lemma rq_sub k sel f : incl (rq k f) (rq (KSub k sel) f).
+  Proof. unfold rq. cbn [req_from]. apply incl_appr, incl_refl. Qed.
   Lemma rq_none k f : incl (rq k f) (req_from k None).
   Proof. apply req_from_none. Qed.
 
@@ -801,6 +839,17 @@ Section DF.
         * (* a false row, or a row of an activation for which the left side produced nothing: passed on *)
           exists b2, e2. split; [|split; [exact V2 | split; [exact A2 | exact Gee]]].
           apply Mem. right. apply in_map_iff. exists ((b2, f), tg). split; [reflexivity|]. apply C1; [exact H2 | exact Must].
+    - (* ---------------- a nested query in condition position ---------------- *)
+      pose proof B as B'. cbn [EvalPure_Facts.basic] in B'. apply andb_prop in B' as [Bs Bc].
+      destruct T as (A & V & F & Y). cbn [Spec.isat] in F.
+      destruct (IH Bc (KSub k sel) bs ywf Dbs b e f Hb) as (b1 & e1 & H1 & V1 & A1 & G1); [now repeat split|].
+      unfold covered. rewrite sub_batch. cbn [d_l].
+      pose proof (bind_sel_cover h dom U dom_nodup sel Bs b1 e1 A1 V1) as N.
+      destruct (filter (fun b2 => agreesb b2 e1) (bind_sel h dom sel b1)) as [|b2 l] eqn:E; [discriminate|].
+      assert (H2 : In b2 (filter (fun b2 => agreesb b2 e1) (bind_sel h dom sel b1))) by (rewrite E; now left).
+      apply filter_In in H2 as [H2 A2]. exists b2, e1. split; [|split; [exact V1 | split; [exact A2|]]].
+      + apply in_flat_map. exists (b1, f). split; [exact H1|]. apply in_map_iff. exists b2. now split.
+      + eapply agree_on_incl; [|exact G1]. apply rq_sub.
   Qed.
 
   (* ---------- the query: the conditions root is activated once, on the empty row ---------- *)
@@ -887,10 +936,10 @@ Section DF.
   Definition Fresh (s : dst) (b : binding) : Prop := forall c, In c (entries s) -> Incomp c b.
 
   Fixpoint top_of (k : ctx) : list key :=
-    match k with KTop R => R | KAndL k' _ | KAndR k' | KElseL k' _ | KElseR k' => top_of k' end.
+    match k with KTop R => R | KAndL k' _ | KAndR k' | KElseL k' _ | KElseR k' | KSub k' _ => top_of k' end.
   Lemma req_from_top k : forall t, incl (top_of k) (req_from k t).
   Proof.
-    induction k as [R|k IH y|k IH|k IH y|k IH]; intros t; cbn [req_from top_of]; try apply incl_refl; try (apply incl_appr, IH). apply IH.
+    induction k as [R|k IH y|k IH|k IH y|k IH|k IH sel]; intros t; cbn [req_from top_of]; try apply incl_refl; try (apply incl_appr, IH). apply IH.
   Qed.
 
   Lemma exists_valid_ext b : in_dom b -> exists e, valid e /\ agreesb b e = true.
@@ -1172,6 +1221,18 @@ Section DF.
           left. apply EP. apply in_app_or in G' as [G'|G']; apply in_or_app; [now left | right; apply in_or_app; right; apply in_or_app; now right].
         * left. apply EP. apply in_or_app; right. apply in_or_app; now left.
         * now apply XE.
+    - (* a nested query *)
+      pose proof B as B'. cbn [EvalPure_Facts.basic] in B'. apply andb_prop in B' as [Bs Bc].
+      rewrite evalD_sub. cbn [fst snd]. pose proof (entries_parts s) as EP.
+      destruct (IH Bc (KSub k sel) ywf IU b (d_l s) Db) as [X1 X2].
+      { intros c Hc. apply HF, EP. apply in_or_app; right. apply in_or_app; right. apply in_or_app; now left. }
+      rewrite X1. split; [now rewrite eval_sub_eq|].
+      intros c Hc. cbn [entries] in Hc.
+      apply in_app_or in Hc as [Hc|Hc]; [left; apply EP, in_or_app; now left|].
+      apply in_app_or in Hc as [Hc|Hc]; [left; apply EP; apply in_or_app; right; apply in_or_app; now left|].
+      apply in_app_or in Hc as [Hc|Hc].
+      + destruct (X2 c Hc) as [G'|Ec]; [|now right]. left. apply EP. apply in_or_app; right. apply in_or_app; right. apply in_or_app; now left.
+      + left. apply EP. apply in_or_app; right. apply in_or_app; right. apply in_or_app; now right.
   Qed.
 
   (* all variables required at the top (every variable of the query is selected): the query evaluated with the de-duplication
